@@ -24,8 +24,9 @@
 (*   "BalanceDrop": balanceHubActor drops an element when no branch has demand        *)
 (*        (reachable when the hub's upstream ignores demand: ParallelMap).            *)
 (*   "ConcatOverlap": FlatMapConcat relies on its upstream honouring its demand of    *)
-(*        one element at a time; directly behind (Ordered)ParallelMap, which pushes,  *)
-(*        several sub-sources run at once and their outputs are reordered.            *)
+(*        one element at a time; directly behind (Ordered)ParallelMap or a fused      *)
+(*        Map/Filter run, which push, several sub-sources run at once and their       *)
+(*        outputs are reordered.                                                      *)
 EXTENDS Integers, Sequences, FiniteSets, TLC
 
 \* ------------------------------------------------------------------ helpers
@@ -72,8 +73,13 @@ OrderInsensitive(s) == Elementwise(s) \/ s \in {"BFlat2", "BFlat3"}
 HasPar(p) == \E i \in 1..Len(p) : Unordered(p[i])
 HasBatch(p) == \E i \in 1..Len(p) : BatchN(p[i]) # 0
 IgnoresDemand(p) == \E i \in 1..Len(p) : IsPar(p[i]) \/ IsOPar(p[i])
-\* FlatMapConcat directly behind a stage that pushes without demand (defect ConcatOverlap)
-OverlapAt(p, j) == j >= 2 /\ p[j] = "FMC" /\ (IsPar(p[j - 1]) \/ IsOPar(p[j - 1]))
+\* FlatMapConcat directly behind a stage ACTOR that pushes without demand (defect ConcatOverlap):
+\* parallelMapActor, or a fusedFlowActor (>= 2 adjacent Map/TryMap/Filter actors when fusion is on; the last
+\* actor of BSumN is a Map)
+Fusable(s) == s \in {"Inc", "Dbl", "Even", "Odd", "Err2", "Err3", "Err4"}
+OverlapAt(p, j) == /\ j >= 2 /\ p[j] = "FMC"
+                   /\ \/ IsPar(p[j - 1]) \/ IsOPar(p[j - 1])
+                      \/ j >= 3 /\ Fusable(p[j - 1]) /\ (Fusable(p[j - 2]) \/ IsBSum(p[j - 2]))
 HasOverlap(p) == \E j \in 1..Len(p) : OverlapAt(p, j)
 
 Each(s, x) ==
